@@ -24,7 +24,8 @@ static bool drive(void *a, int st) {
 static Verdict run(const Case &c) {
     Verdict v;
     World w;
-    vp_set_now_ms(100000);
+    const uint64_t base0 = c.c(4) == 1 ? 0 : c.c(4) == 2 ? 500 : 100000;   // cfg[4]: the clock at the start (1, 2: within the first second after start-up, where the seconds clock reads 0)
+    vp_set_now_ms(base0);
     void *a = br_init_session();
     if (c.c(0) == 0) {
         int st = (int)(c.c(1) & 3), e = (int)(c.c(2) & 7);
@@ -33,7 +34,7 @@ static Verdict run(const Case &c) {
         else if (!drive(a, st)) v.fail(fmt("legal events did not drive a fresh automaton into %s (is %d)", NAME[st], br_aut_state(a)));
         if (v.ok) {
             int t = br_aut_timeout(a, st);
-            vp_set_now_ms(100000 + el * 1000);
+            vp_set_now_ms(base0 + el * 1000);
             int got = br_switch_session(a, e);
             bool timed_out = t != 0 && (int64_t)el > t;
             if (timed_out) {
@@ -73,9 +74,11 @@ static Verdict run(const Case &c) {
 static Verdict run_multi(const Case &c) {
     Verdict v;
     World w;
-    uint64_t now = 100000 + (uint64_t)(c.c(2) % 1000);
+    uint64_t now = (c.c(4) ? 0 : 100000) + (uint64_t)(c.c(2) % 1000);   // cfg[4]: the history starts within the first second of the clock
     vp_set_now_ms(now);
     int k = (int)std::max<int64_t>(1, std::min<int64_t>(c.c(1, 2), 3));
+    void *mp = c.c(3) ? br_init_mapping() : nullptr;   // cfg[3]: a mapping engine of the same daemon lives (and is replaced) next to the session automata; ops 4 (input) and 5 (replace)
+    int mp_inputs = 0;
     void *a[3] = {nullptr, nullptr, nullptr};
     int st[3]; uint64_t last[3];
     for (int i = 0; i < k; i++) { a[i] = br_init_session(); st[i] = 1; last[i] = now; }
@@ -83,10 +86,13 @@ static Verdict run_multi(const Case &c) {
     for (size_t i = 0; i < c.ops.size() && v.ok; i++) {
         const Op &op = c.ops[i];
         if (op.kind == 2) { now += (uint64_t)std::max<int64_t>(0, std::min<int64_t>(op.arg(0), 100000)); vp_set_now_ms(now); continue; }
+        if (op.kind == 4) { if (mp) { br_switch_mapping(mp, (int)op.arg(0)); mp_inputs++; } continue; }
+        if (op.kind == 5) { if (mp) { br_switch_mapping(mp, 0); br_automata_destroy(mp); mp = (op.arg(0) & 1) ? br_init_mapping() : nullptr; if (!mp) { mp = nullptr; } } else mp = br_init_mapping(); continue; }
         int x = (int)(((op.kind == 3 ? op.arg(0) : op.arg(1)) % k + k) % k);
         if (op.kind == 3) {
+            void *fresh = br_init_session();   // built while the old one still exists (and possibly in memory a mapping engine has just given back)
             br_automata_destroy(a[x]);
-            a[x] = br_init_session();
+            a[x] = fresh;
             for (int j = 0; j < k; j++) if (j != x && st[j] != 1) others_active++;
             if (br_aut_state(a[x]) != 1) v.fail(fmt("step %zu: a session automaton created while %d other(s) exist is born in state %d, expected Nascent", i, k - 1, br_aut_state(a[x])));
             st[x] = 1; last[x] = now; replaced++;
@@ -109,6 +115,8 @@ static Verdict run_multi(const Case &c) {
             if (j != x && br_aut_state(a[j]) != st[j]) v.fail(fmt("step %zu: an event for automaton %d moved automaton %d from %s to %d", i, x, j, NAME[st[j]], br_aut_state(a[j])));
     }
     for (int i = 0; i < k; i++) br_automata_destroy(a[i]);
+    if (mp) br_automata_destroy(mp);
+    if (mp_inputs) v.cls("mapping-engine-active-alongside");
     v.nontrivial = changes >= 2 && k >= 2;
     if (timeouts) v.cls("has-timeout");
     if (replaced && others_active) v.cls("automaton-created-while-another-is-active");
@@ -139,12 +147,15 @@ int main(int argc, char **argv) {
                 std::set<int64_t> els = {0, std::max(0, tm[st] - 1), tm[st], tm[st] + 1, 10 * (int64_t)tm[st], 32767, 32768, 65535, 65536, 65537, 2147483647LL, 2147483648LL, 4294967296LL};
                 for (int64_t el : els) {
                     if (a.shard != 0) continue;   // 160 cells: one shard does them all
-                    Case c; c.cfg = {0, st, e, el};
+                    for (int64_t base : {0, 1, 2}) {
+                    Case c; c.cfg = {0, st, e, el, base};
                     CurrentScope scope(c);
                     Verdict v = run(c);
                     ev.note(c.digest(), v.nontrivial && v.ok, [&] { return c.to_text(); });
                     for (auto &x : v.classes) ev.count("c15-cells:" + x);
                     if (!v.ok) { write_file(a.failing, "# c15-cells: " + v.why + "\n" + c.to_text()); fprintf(stderr, "FAIL part=c15-cells %s\n", v.why.c_str()); ok = false; break; }
+                    }
+                    if (!ok) break;
                 }
             }
         ev.extra["cells_exhaustive"] = "true";
@@ -165,16 +176,18 @@ int main(int argc, char **argv) {
     }
     if (ok) {
         auto gen = rc::gen::exec([] {
-            Case c; c.cfg = {2, *gx::range<int64_t>(1, 3), *gx::range<int64_t>(0, 999)};
+            Case c; c.cfg = {2, *gx::range<int64_t>(1, 3), *gx::range<int64_t>(0, 999), *gx::pick({0, 1, 1}), *gx::pick({0, 0, 0, 1})};
             int n = *gx::range<int>(1, 50);
             c.ops = *rc::gen::resize(n, rc::gen::container<std::vector<Op>>(rc::gen::exec([] {
                 Op o;
                 int r = *gx::range<int>(0, 99);
-                int k = r < 70 ? 1 : r < 92 ? 2 : 3;
+                int k = r < 58 ? 1 : r < 78 ? 2 : r < 86 ? 3 : r < 96 ? 4 : 5;
                 o.kind = k;
                 if (k == 1) o.a = {*gx::range<int64_t>(0, 7), *gx::range<int64_t>(0, 2)};
                 else if (k == 2) o.a = {*gx::pick({0, 1, 100, 200, 500, 900, 999, 1000, 1001, 1100, 1900, 2000, 2100, 3000, 30000, 31000, 61000})};
-                else o.a = {*gx::range<int64_t>(0, 2)};
+                else if (k == 3) o.a = {*gx::range<int64_t>(0, 2)};
+                else if (k == 4) o.a = {*gx::pick({0, 0, 2, 8, -3, 4, 9})};
+                else o.a = {*gx::pick({0, 1, 1})};
                 return o;
             })));
             return c;
